@@ -336,7 +336,8 @@ def run(pr, repo):
     pr.explanation = ('deductive core (VC, ring identities, frame census) plus bounded pose monitor; level "other" because one clause of '
                       'the property does NOT hold on this tree (recorded known finding D16: the amide hydrogen of a backbone nitrogen that '
                       'follows a chain break is built with the frame-dependent Vector.orthogonal()): its property-form obligation is '
-                      'refuted and replayed on every run and reported as KNOWN-FINDING, so discharged < obligations')
+                      'refuted and replayed on every run and reported as KNOWN-FINDING, so discharged < obligations; known finding D19, seen by '
+                      'the pose monitor only: the COO-ARG exception takes its third atom from the pose-dependent bond-list order of NE)')
     tasks = [(task_invariance, ()), (C11.task_cell_lemma, ()), (C11.task_offsets, ()), (C11.task_check_distance, ()), (C11.task_plumbing, ()),
              (C11.task_boxes_pair, ('S', 'S', False, (0,))), (C17.task_equivariance, ()), (C17.task_add_proton, ()),
              (C17.task_orthogonal, ()), (task_group_centres, ()), (C20.task_rotation, (), 'support'), (task_backbone_two_runs, ()),
